@@ -479,10 +479,14 @@ deriving DecidableEq, Repr
 def keySetattr (_name : Str) : SetOutcome := .attributeError
 /-- `Reference.__setattr__` -/
 def refSetattr (_name : Str) : SetOutcome := .attributeError
+def nmSemanticId : Str := "_semantic_id".toList
+def nmSupplementalSemanticId : Str := "_supplemental_semantic_id".toList
+def nmParent : Str := "parent".toList
+
 /-- `SpecificAssetId.__setattr__(key, value)`: what it lets through -/
 def saiSetattr (name : Str) (valueIsNone : Bool) : SetOutcome :=
-  if name = "_semantic_id".toList || name = "_supplemental_semantic_id".toList
-     || (name = "parent".toList && valueIsNone) then .assigned else .attributeError
+  if name = nmSemanticId || name = nmSupplementalSemanticId || (name = nmParent && valueIsNone)
+  then .assigned else .attributeError
 
 /-- `sai.supplemental_semantic_id.append(r)`: the ConstrainedList is handed out and is mutable; only the AASd-118 hook
     guards it -/
